@@ -19,6 +19,10 @@ MUTATING_METHODS = {"sort", "append", "extend", "insert", "pop", "remove", "upda
                     "itemset", "partition", "reverse", "popitem", "add", "discard", "setflags", "byteswap"}
 MUTATING_FUNCS = {"numpy.put": 0, "numpy.place": 0, "numpy.copyto": 0, "numpy.fill_diagonal": 0, "numpy.put_along_axis": 0,
                   "numpy.random.shuffle": 0, "random.shuffle": 0}
+# drawing from a random generator advances it: hidden state when the generator lives on the object, the class or the module
+# (a generator handed in as an argument is the caller's to advance)
+RNG_DRAW_METHODS = {"normal", "uniform", "random", "random_sample", "rand", "randn", "randint", "integers", "choice", "shuffle", "permutation",
+                    "standard_normal", "multivariate_normal", "bytes", "seed"}
 IMMUTABLE_DOC = ("str", "int", "float", "bool", "tuple", "callable", "number", "scalar")
 # drawing on a supplied matplotlib Axes is the documented purpose of the plotting functions
 AXES_PARAMS = {"ax", "axes"}
@@ -308,6 +312,9 @@ class Effects:
                             recv = f[1]
                             ro = self.origins(recv, fn)
                             note(ro, st, f".{f[2]}(...) on {show(recv)[:30]}")
+                        if f[0] == "attr" and f[2] in RNG_DRAW_METHODS:
+                            ro = {r for r in self.origins(f[1], fn) if r[0] in ("global", "selfattr")}
+                            note(ro, st, f"draws from the random generator {show(f[1])[:30]} kept between calls (.{f[2]}(...) advances it)")
                         calls.append((st, t))
                     elif isinstance(n, ast.Attribute) and isinstance(n.ctx, ast.Load) and isinstance(n.value, ast.Name) and n.value.id == "self" and fn.cls is not None:
                         # property read = call of the getter
